@@ -691,6 +691,12 @@ def prove(tier, seed):  # noqa: F811
         return b
     return merge(_prove_before_frames(tier, seed), b)
 
+LEVEL_TEXT = LEVEL_TEXT + (" Also proved for ALL local dimensions d (E1-array/bilinear; p = 2, 3, and 4 in the thorough tier): the full symmetric / antisymmetric projectors equal "
+                           "(1/p!) sum_sigma [sgn(sigma)] W_sigma entrywise (permutation_operator and perm_sign by their proved contracts), and as lemmas over that postcondition (p = 2, 3): "
+                           "Hermitian, idempotent, W_tau P = P resp. sgn(tau) P for generators tau of S_p, P_sym P_anti = 0, P_sym + P_anti = I for p = 2, trace = binom(d+p-1, p) resp. binom(d, p).")
+from props.C18_bilinear import ASSUMED as _BIL_ASSUMED  # noqa: E402
+
+ASSUMPTIONS = list(ASSUMPTIONS) + list(_BIL_ASSUMED)
 if LEVEL == "exploration":
     LEVEL = "other"
 LEVEL_TEXT = LEVEL_TEXT + (" Additionally proved (E2, taint analysis of the real AST): every public function and method in this property's anchor files writes through "
